@@ -358,6 +358,9 @@ class Interp:
             kw = dict(fn.kwargs)
             kw.update(kwargs)
             return self.call(fn.func, list(fn.args) + list(args), kw)
+        if getattr(type(fn), "pyvc_not_callable", False) is True:
+            # a theory value of a library class that defines no __call__ (a pandas Series / DataFrame): python's own TypeError
+            self.raise_py(TypeError, f"'{getattr(fn.pyvc_class(), '__name__', 'object')}' object is not callable")
         # models first (live callables with a theory implementation)
         m = self.models.lookup(fn)
         if m is None and isinstance(fn, functools._lru_cache_wrapper):
